@@ -617,6 +617,39 @@ def rule_validator_built_once(ctx, rid="R19.8"):
     return r
 
 
+def rule_cli_table(ctx, sem):
+    prog = ctx.prog
+    run_f = prog.func("cli.run")
+    n = sem.get("_scenarios", 0)
+    spec = [
+        ("R19.1", "schema load and check_schema failures return non-zero before any instance is looked at", 4, ("schema-first", "exit"), "exit:",
+         ["a missing, unparsable, undecodable or invalid schema: non-zero, no instance file opened, nothing constructed", "exit status non-zero in each of these",
+          "one diagnostic / one SchemaError report", "a usable schema goes on to the instances"]),
+        ("R19.2", "every listed instance is processed whatever happened before", 3, ("all-instances",), "loop-exit:",
+         ["every instance file is opened, in order, after missing / unparsable / invalid predecessors", "every loadable instance is validated once, in order", "lists of one to three instances"]),
+        ("R19.3", "the exit status accumulates monotonically: once non-zero it stays non-zero", 4, ("exit",), "accumulator",
+         ["status 0 exactly when the schema is usable and every instance loads and is valid", "a later valid instance does not reset it", "stdin instance likewise", "an integer"]),
+        ("R19.4", "one report per error, success only when there was none, the returned flag says which", 4, ("reports", "streams"), "iter_errors-loop",
+         ["one report per error the validator yields (0, 1 and 2 errors)", "one success message per valid instance, none otherwise", "plain and pretty", "the flag feeds the exit status"]),
+        ("R19.5", "errors and diagnostics go to stderr, success to stdout, each exactly the formatter's text once; plain success is empty", 6, ("streams", "diagnostics"), "stream",
+         ["errors on stderr", "diagnostics on stderr", "success headers on stdout only", "plain mode: nothing on stdout", "each once", "pretty mode: one block each"]),
+        ("R19.7", "every way json.load can fail on a text stream becomes one parsing diagnostic and _CannotLoadFile", 2, ("diagnostics", "all-instances"), "uncaught|",
+         ["not JSON, not UTF-8, raw control characters, missing: one diagnostic each, files and stdin", "processing continues with the next instance"]),
+        ("R19.8", "one validator, built from the checked schema, validates every instance", 2, ("class", "all-instances", "resolver"), "instance-prov",
+         ["one construction, after check_schema, with the loaded schema; what is validated is what was loaded", "a resolver only for --base-uri, on that URI and the schema"]),
+        ("R19.9", "validator_for is consulted only when no class was given, and its result is what is then used", 1, ("class",), "guard",
+         ["an explicit class does check_schema and construction; otherwise the class validator_for selects"]),
+    ]
+    for rid, title, floor, clauses, key, oks in spec:
+        r = ctx.rule(rid, title, floor=floor)
+        bad = [sem[c] for c in clauses if sem.get(c)]
+        if bad:
+            r.fail("%s|%s%s" % (run_f.qual, key, "table"), site(run_f), bad[0])
+        else:
+            for t in oks:
+                r.ok(site(run_f) + " [%s]" % t[:50], "%s (%d scenarios evaluated)" % (t, n))
+
+
 def run(ctx):
     ctx.explanation = (
         "C19 is decided on the CFG of cli.run, cli._validate_instance and the _Outputter/formatter methods: dominators "
@@ -624,6 +657,14 @@ def run(ctx):
         "accumulator over {zero, nonzero}, handler coverage of json.load's exception effect, stream discipline by "
         "who-writes-where. Not decided: wording of diagnostics.")
     ctx.assume("json.load on a text stream raises JSONDecodeError or UnicodeDecodeError (stdlib model); open() failures other than ENOENT are re-raised on purpose")
+    from .clisem import cli_eval
+    sem = cli_eval(ctx.prog)
+    if sem is not None and "raises" not in sem:
+        # decided by running cli.run inside the definitional interpreter on a table of scenarios (sa/rules/clisem.py); the CFG rules
+        # below remain the fallback for code outside the evaluated fragment
+        rule_cli_table(ctx, sem)
+        rule_options(ctx)
+        return
     rule_schema_gate(ctx)
     rule_every_instance(ctx)
     rule_monotone_status(ctx)
